@@ -322,6 +322,7 @@ structure InvP (pend : List Msg) (s : State) : Prop where
   cbs_issued : ∀ e, e ∈ s.cbs → e ∈ s.issued
   forest : Forest s.cbs
   exec : s.plainIssued = 0 → (∀ m, m ∈ pend ++ s.msgs → isExec m) ∧ (∀ e, e ∈ s.mergeLog → e.1 = true)
+  span : s.plainIssued = 0 → ∀ x, Conn s.cbs x (parent s x)
 
 abbrev Inv (s : State) : Prop := InvP [] s
 
@@ -605,14 +606,14 @@ theorem numSets_reparent_root {s : State} (A : InvA s) {x z : Item} (hx : x ∈ 
 
 /-! ### sound: trees stay inside components -/
 
-theorem conn_of_anc {s : State} (hs : ∀ x, Conn s.issued x (parent s x)) {x a : Item} (h : Anc s x a) :
-    Conn s.issued x a := by
+theorem conn_of_anc {s : State} {E : List (Item × Item)} (hs : ∀ x, Conn E x (parent s x)) {x a : Item} (h : Anc s x a) :
+    Conn E x a := by
   induction h with
   | refl _ => exact Conn.refl _
   | step _ ih => exact Conn.trans (hs _) ih
 
-theorem conn_of_sameTree {s : State} (hs : ∀ x, Conn s.issued x (parent s x)) {x y : Item} (h : sameTree s x y) :
-    Conn s.issued x y := by
+theorem conn_of_sameTree {s : State} {E : List (Item × Item)} (hs : ∀ x, Conn E x (parent s x)) {x y : Item} (h : sameTree s x y) :
+    Conn E x y := by
   obtain ⟨r, h1, h2⟩ := h
   exact Conn.trans (conn_of_anc hs h1) (Conn.symm (conn_of_anc hs h2))
 
@@ -634,7 +635,9 @@ theorem InvP.transfer {pend : List Msg} {s s' : State} (h : InvP pend s) (e : Ex
     (hsound : ∀ x, Conn s'.issued x (parent s' x))
     (hcount : s'.mergeLog.length + numSets s' = s'.dom.length)
     (hcbs : s'.cbs = s.cbs) (hlog : s'.mergeLog = s.mergeLog) (hiss : s'.issued = s.issued)
-    (hplain : s'.plainIssued = s.plainIssued) : InvP pend s' where
+    (hplain : s'.plainIssued = s.plainIssued)
+    (hspan : s'.plainIssued = 0 → ∀ x, Conn s'.cbs x (parent s' x)) : InvP pend s' where
+  span := hspan
   a := A'
   msgs m hm := by
     rcases List.mem_append.mp hm with hm | hm
@@ -672,6 +675,7 @@ theorem InvP.on_visit {pend : List Msg} {s : State} (h : InvP pend s) (t : Item)
   have hent := ent_visit s t
   refine h.transfer (Ext.of_ent hent (fun x hx => (mem_dom_visit s t x).2 (Or.inr hx)) (by simp)) (h.a.on_visit t)
     (fun m hm => Or.inl (by simpa using hm)) (fun m hm => by simpa using hm) (by simp [h.noabort]) ?_ ?_ (by simp) (by simp) (by simp) (by simp)
+    (fun hp x => by rw [parent_of_ent hent, cbs_visit]; exact h.span (by simpa using hp) x)
   · intro x; rw [parent_of_ent hent, issued_visit]; exact h.sound x
   · by_cases ht : t ∈ s.dom
     · have : DSet.visit s t = s := by unfold DSet.visit; rw [if_pos ht]
@@ -692,7 +696,7 @@ theorem InvP.on_visit {pend : List Msg} {s : State} (h : InvP pend s) (t : Item)
 theorem InvP.on_send {pend : List Msg} {s : State} (h : InvP pend s) {m : Msg} (hm : MsgOk s m)
     (hx : s.plainIssued = 0 → isExec m) : InvP pend (send s m) := by
   have e : Ext s (DSet.send s m) := Ext.of_ent rfl (fun _ h => h) (fun _ h => h)
-  refine h.transfer e (h.a.of_ent rfl rfl) ?_ (fun m' hm' => by simp; exact Or.inl hm') h.noabort h.sound h.count rfl rfl rfl rfl
+  refine h.transfer e (h.a.of_ent rfl rfl) ?_ (fun m' hm' => by simp; exact Or.inl hm') h.noabort h.sound h.count rfl rfl rfl rfl h.span
   intro m' hm'
   simp only [msgs_send, List.mem_append, List.mem_singleton] at hm'
   rcases hm' with h1 | h1
@@ -704,7 +708,12 @@ theorem InvP.on_reparent_nonroot {pend : List Msg} {s : State} (h : InvP pend s)
     InvP pend (reparent s x z) := by
   have hxd := h.a.mem_of_nonroot hx
   have e := Ext.on_reparent h.a hlt (Or.inr ⟨hx, hst⟩)
-  refine h.transfer e (h.a.on_reparent hxd hz hlt) (fun m hm => Or.inl hm) (fun m hm => hm) h.noabort ?_ ?_ rfl rfl rfl rfl
+  refine h.transfer e (h.a.on_reparent hxd hz hlt) (fun m hm => Or.inl hm) (fun m hm => hm) h.noabort ?_ ?_ rfl rfl rfl rfl ?_
+  rotate_left 2
+  · intro hp y
+    rw [parent_reparent]; split
+    · next e' => subst e'; exact conn_of_sameTree (h.span hp) hst
+    · exact h.span hp y
   · intro y
     rw [parent_reparent]; split
     · next e' => subst e'; exact conn_of_sameTree h.sound hst
@@ -725,6 +734,7 @@ theorem InvP.on_reparent_nonroot {pend : List Msg} {s : State} (h : InvP pend s)
 theorem InvP.on_bump {pend : List Msg} {s : State} (h : InvP pend s) {p : Item} {r : Int} (hp : p ∈ s.dom)
     (hroot : isRoot s p) (hle : rank s p ≤ r) : InvP pend (bump s p r) := by
   refine h.transfer (Ext.on_bump hroot hle) (h.a.on_bump hp hroot hle) (fun m hm => Or.inl hm) (fun m hm => hm) h.noabort ?_ ?_ rfl rfl rfl rfl
+    (fun hp y => by rw [parent_bump]; exact h.span hp y)
   · intro y; rw [parent_bump]; exact h.sound y
   · have : numSets (DSet.bump s p r) = numSets s := numSets_congr (s := s) (s' := DSet.bump s p r) rfl (fun y _ => by rw [parent_bump])
     show s.mergeLog.length + _ = s.dom.length
@@ -774,7 +784,7 @@ theorem InvP.on_merge_plain {pend : List Msg} {s : State} (h : InvP pend s) {t o
   have e2 : Ext (reparent s t op) (logMerge (reparent s t op) false t op) := Ext.of_ent rfl (fun _ h => h) (fun _ h => h)
   have e := e1.trans e2
   refine ⟨⟨A1.of_ent rfl rfl, fun m hm => (h.msgs m hm).mono e, h.noabort, hs1, ?_, ?_, ?_, fun x hx => e.tree _ _ (h.cbs_tree x hx),
-    h.cbs_issued, h.forest, fun hp => absurd hp hex⟩, e2.tree _ _ hst1⟩
+    h.cbs_issued, h.forest, fun hp => absurd hp hex, fun hp => absurd hp hex⟩, e2.tree _ _ hst1⟩
   · intro a b hab
     rcases h.done a b hab with h1 | h1
     · exact Or.inl (e.tree _ _ h1)
@@ -796,7 +806,7 @@ theorem InvP.on_merge_exec {pend : List Msg} {s : State} (h : InvP pend s) {t op
   have e2 : Ext (reparent s t op) (callback (logMerge (reparent s t op) true t op) oa ob) :=
     Ext.of_ent rfl (fun _ h => h) (fun _ h => h)
   have e := e1.trans e2
-  refine ⟨⟨A1.of_ent rfl rfl, fun m hm => (h.msgs m hm).mono e, h.noabort, hs1, ?_, ?_, ?_, ?_, ?_, ⟨hnc, h.forest⟩, ?_⟩, e2.tree _ _ hst1⟩
+  refine ⟨⟨A1.of_ent rfl rfl, fun m hm => (h.msgs m hm).mono e, h.noabort, hs1, ?_, ?_, ?_, ?_, ?_, ⟨hnc, h.forest⟩, ?_, ?_⟩, e2.tree _ _ hst1⟩
   · intro a b hab
     rcases h.done a b hab with h1 | h1
     · exact Or.inl (e.tree _ _ h1)
@@ -822,6 +832,19 @@ theorem InvP.on_merge_exec {pend : List Msg} {s : State} (h : InvP pend s) {t op
     rcases List.mem_cons.mp hx with hx | hx
     · subst hx; rfl
     · exact h2 x hx
+  · intro hp y
+    have hp' : s.plainIssued = 0 := hp
+    have hmono : ∀ {u v : Item}, Conn s.cbs u v → Conn ((oa, ob) :: s.cbs) u v :=
+      fun c => Conn.mono (fun _ h => List.mem_cons_of_mem _ h) c
+    show Conn ((oa, ob) :: s.cbs) y (parent (reparent s t op) y)
+    rw [parent_reparent]; split
+    · next e' =>
+      subst e'
+      have hedge : Conn ((oa, ob) :: s.cbs) oa ob := Conn.edge List.mem_cons_self
+      rcases hside with ⟨h1, h2⟩ | ⟨h1, h2⟩
+      · exact Conn.trans (hmono (conn_of_sameTree (h.span hp') h1)) (Conn.trans hedge (Conn.symm (hmono (conn_of_sameTree (h.span hp') h2))))
+      · exact Conn.trans (hmono (conn_of_sameTree (h.span hp') h1)) (Conn.trans (Conn.symm hedge) (Conn.symm (hmono (conn_of_sameTree (h.span hp') h2))))
+    · exact hmono (h.span hp' y)
 
 theorem InvP.on_issue {s : State} (h : Inv s) (ex : Bool) (a b : Item) : Inv (issue s ex a b) := by
   have e : Ext s (issue s ex a b) := Ext.of_ent rfl (fun _ h => h) (fun _ h => List.mem_cons_of_mem _ h)
@@ -832,7 +855,15 @@ theorem InvP.on_issue {s : State} (h : Inv s) (ex : Bool) (a b : Item) : Inv (is
     have h2 : rank (issue s ex a b) b = rank s b := rfl
     omega
   refine ⟨h.a.of_ent rfl rfl, ?_, h.noabort, fun x => Conn.mono (fun _ h => List.mem_cons_of_mem _ h) (h.sound x), ?_, h.count, h.cbs_eq,
-    fun x hx => e.tree _ _ (h.cbs_tree x hx), fun x hx => List.mem_cons_of_mem _ (h.cbs_issued x hx), h.forest, ?_⟩
+    fun x hx => e.tree _ _ (h.cbs_tree x hx), fun x hx => List.mem_cons_of_mem _ (h.cbs_issued x hx), h.forest, ?_, ?_⟩
+  rotate_right 1
+  · intro hp x
+    have hp' : (if ex then s.plainIssued else s.plainIssued + 1) = 0 := hp
+    have hz : s.plainIssued = 0 := by
+      cases ex
+      · simp at hp'
+      · simpa using hp'
+    exact h.span hz x
   · intro m hm'
     have hm'' : m ∈ s.msgs ++ [Msg.walk ex a a b b (-1) a b] := hm'
     rcases List.mem_append.mp hm'' with h1 | h1
@@ -890,6 +921,7 @@ theorem InvP.drop {m : Msg} {s : State} (h : InvP [m] s)
   exec hp := by
     obtain ⟨h1, h2⟩ := h.exec hp
     exact ⟨fun m' hm' => h1 m' (List.mem_append_right _ (by simpa using hm')), h2⟩
+  span := h.span
 
 /-- taking the `i`-th message out of flight to run its handler -/
 theorem InvP.take {s : State} (h : Inv s) {i : Nat} {m : Msg} (hm : s.msgs[i]? = some m) :
@@ -901,7 +933,7 @@ theorem InvP.take {s : State} (h : Inv s) {i : Nat} {m : Msg} (hm : s.msgs[i]? =
     apply (hmem m').2
     simpa using hm'
   refine ⟨h.a.of_ent rfl rfl, fun m' hm' => (h.msgs m' (by simpa using hsub m' hm')).mono e, h.noabort, h.sound, ?_, h.count, h.cbs_eq,
-    fun x hx => e.tree _ _ (h.cbs_tree x hx), h.cbs_issued, h.forest, ?_⟩
+    fun x hx => e.tree _ _ (h.cbs_tree x hx), h.cbs_issued, h.forest, ?_, h.span⟩
   · intro a b hab
     rcases h.done a b hab with h1 | ⟨ex, t, c, op, oi, ork, hw⟩
     · exact Or.inl (e.tree _ _ h1)
@@ -1141,5 +1173,142 @@ theorem Inv.on_deliver {s : State} (h : Inv s) (i : Nat) : Inv (deliver s i) := 
     | walk ex t c op oi ork oa ob => exact Inv.on_walk hp
     | setp x z => exact Inv.on_setp hp
     | resolve p x k => exact Inv.on_resolve hp
+
+
+/-! ### lookups terminate -/
+
+/-- the measure: number of present items strictly above `x` in the `(rank, item)` order -/
+def above (s : State) (x : Item) : Nat := (s.dom.filter (fun y => lexLtB s x y)).length
+
+theorem above_le (s : State) (x : Item) : above s x ≤ s.dom.length := List.length_filter_le _ _
+
+theorem above_parent_lt {s : State} (A : InvA s) {x : Item} (hx : ¬ isRoot s x) : above s (parent s x) < above s x := by
+  have hlt := A.lex x hx
+  apply filter_length_lt
+  · intro y _ hy
+    exact (lexLtB_iff s x y).2 (lexLt_trans hlt ((lexLtB_iff s _ y).1 hy))
+  · refine ⟨parent s x, A.closed x (A.mem_of_nonroot hx), (lexLtB_iff s x _).2 hlt, ?_⟩
+    cases h : lexLtB s (parent s x) (parent s x)
+    · rfl
+    · exact absurd ((lexLtB_iff s _ _).1 h) (lexLt_irrefl s _)
+
+theorem find_anc (s : State) : ∀ (n : Nat) (x : Item), Anc s x (find s n x)
+  | 0, x => Anc.refl x
+  | n + 1, x => by
+    unfold find
+    split
+    · exact Anc.refl x
+    · exact Anc.step (find_anc s n _)
+
+theorem find_isRoot {s : State} (A : InvA s) : ∀ (n : Nat) (x : Item), above s x < n → isRoot s (find s n x)
+  | 0, x, h => absurd h (Nat.not_lt_zero _)
+  | n + 1, x, h => by
+    unfold find
+    split
+    · next hr => exact hr
+    · next hr =>
+      have := above_parent_lt A (x := x) hr
+      exact find_isRoot A n _ (by omega)
+
+theorem root_isRoot' {s : State} (A : InvA s) (x : Item) : isRoot s (root s x) :=
+  find_isRoot A _ x (Nat.lt_succ_of_le (above_le s x))
+
+theorem root_anc (s : State) (x : Item) : Anc s x (root s x) := find_anc s _ x
+
+theorem root_unique' {s : State} (A : InvA s) {x r : Item} (h : Anc s x r) (hr : isRoot s r) : r = root s x := by
+  rcases Anc.chain h (root_anc s x) with h1 | h1
+  · exact (Anc.of_root hr h1).symm
+  · exact Anc.of_root (root_isRoot' A x) h1
+
+theorem sameTree_iff_root_eq' {s : State} (A : InvA s) (x y : Item) : sameTree s x y ↔ root s x = root s y := by
+  constructor
+  · rintro ⟨c, h1, h2⟩
+    have hc := root_anc s c
+    have e1 := root_unique' A (h1.trans hc) (root_isRoot' A c)
+    have e2 := root_unique' A (h2.trans hc) (root_isRoot' A c)
+    rw [← e1, ← e2]
+  · intro h
+    exact ⟨root s x, root_anc s x, by rw [h]; exact root_anc s y⟩
+
+theorem anc_mem_dom {s : State} (A : InvA s) {x a : Item} (h : Anc s x a) (hx : x ∈ s.dom) : a ∈ s.dom := by
+  induction h with
+  | refl _ => exact hx
+  | step _ ih => exact ih (A.closed _ hx)
+
+theorem anc_antisymm {s : State} (A : InvA s) {x y : Item} (h1 : Anc s x y) (h2 : Anc s y x) : x = y := by
+  rcases anc_lexLe A.lex h1 with h | h
+  · exact h
+  · rcases anc_lexLe A.lex h2 with h' | h'
+    · exact h'.symm
+    · exact absurd (lexLt_trans h h') (lexLt_irrefl s x)
+
+/-! ### all_find / all_compress keep the invariant -/
+
+theorem Inv.on_compress {s : State} (h : Inv s) (x : Item) : Inv (compress s x) := by
+  have h0 := h.on_visit x
+  have hx : x ∈ (visit s x).dom := self_mem_dom_visit s x
+  show Inv (if parent (visit s x) x = x then visit s x else reparent (visit s x) x (root (visit s x) x))
+  split
+  · exact h0
+  · next hnr =>
+    have hnr' : ¬ isRoot (visit s x) x := hnr
+    have hanc := root_anc (visit s x) x
+    have hlt : lexLt (visit s x) x (root (visit s x) x) := by
+      rcases anc_lexLe h0.a.lex hanc with e | e
+      · have hr := root_isRoot' h0.a x
+        rw [← e] at hr
+        exact absurd hr hnr'
+      · exact e
+    exact h0.on_reparent_nonroot hnr' (anc_mem_dom h0.a hanc hx) hlt (sameTree.of_anc hanc)
+
+theorem Inv.on_foldl_compress (l : List Item) : ∀ {s : State}, Inv s → Inv (l.foldl compress s) := by
+  induction l with
+  | nil => intro s h; exact h
+  | cons a l ih => intro s h; exact ih (h.on_compress a)
+
+theorem Inv.on_compressAll {s : State} (h : Inv s) : Inv (compressAll s) := Inv.on_foldl_compress _ h
+
+theorem Inv.init : Inv init where
+  a := ⟨fun _ hx => absurd rfl hx, fun _ => Int.le_refl _, fun _ _ => rfl, fun _ hx => (nomatch hx), List.nodup_nil⟩
+  msgs _ hm := nomatch hm
+  noabort := rfl
+  sound x := Conn.refl x
+  done _ _ hab := nomatch hab
+  count := rfl
+  cbs_eq := rfl
+  cbs_tree _ he := nomatch he
+  cbs_issued _ he := nomatch he
+  forest := trivial
+  exec _ := ⟨fun _ hm => (nomatch hm), fun _ he => (nomatch he)⟩
+  span _ x := Conn.refl x
+
+/-! ### reachable states -/
+
+/-- one step of the system: a rank calls `async_union[_and_execute]`, any in-flight message is
+delivered, or (`all_find` / `all_compress`) an item is pointed at its representative -/
+inductive Step : State → State → Prop
+  | issue (s : State) (ex : Bool) (a b : Item) : Step s (issue s ex a b)
+  | deliver (s : State) (i : Nat) : Step s (deliver s i)
+  | compress (s : State) (x : Item) : Step s (compress s x)
+
+inductive Steps : State → State → Prop
+  | refl (s : State) : Steps s s
+  | tail {s s' s'' : State} : Steps s s' → Step s' s'' → Steps s s''
+
+/-- reachable from the empty container by any number of steps in any order -/
+def Reach (s : State) : Prop := Steps init s
+
+theorem Inv.on_step {s s' : State} (h : Inv s) (st : Step s s') : Inv s' := by
+  cases st with
+  | issue ex a b => exact InvP.on_issue h ex a b
+  | deliver i => exact h.on_deliver i
+  | compress x => exact h.on_compress x
+
+theorem Inv.on_steps {s s' : State} (h : Inv s) (st : Steps s s') : Inv s' := by
+  induction st with
+  | refl => exact h
+  | tail _ st ih => exact ih.on_step st
+
+theorem Reach.inv {s : State} (h : Reach s) : Inv s := Inv.init.on_steps h
 
 end YgmVerif.DSet
